@@ -121,9 +121,12 @@ func execTaskAt(p TaskProg, tag string) (rec []string) {
 	var err error
 	var pn string
 	if p.OpenExt != "" && c20Dir != "" {
-		path := filepath.Join(c20Dir, tag+"-in."+p.OpenExt)
-		if werr := os.WriteFile(path, p.Doc, 0o644); werr != nil {
-			return append(rec, "open:cannot-store")
+		// the same document is the same file for every task of the scenario: independent callers may well open one file
+		path := inputPath(p)
+		if _, serr := os.Stat(path); serr != nil {
+			if werr := os.WriteFile(path, p.Doc, 0o644); werr != nil { // normally stored by the harness before the tasks start
+				return append(rec, "open:cannot-store")
+			}
 		}
 		s, err, pn = fileOpenOpts(path, p.Reader)
 	} else {
@@ -206,6 +209,20 @@ func execTaskAt(p TaskProg, tag string) (rec []string) {
 		}
 	}
 	return rec
+}
+
+// inputPath is where the document of a task that goes through Open is stored.
+func inputPath(p TaskProg) string {
+	return filepath.Join(c20Dir, "in-"+canon.HashBytes(p.Doc)+"."+p.OpenExt)
+}
+
+// storeInputs writes the input files of a scenario (harness work, done before any task starts).
+func storeInputs(sc C20Scenario) {
+	for _, t := range sc.Tasks {
+		if t.OpenExt != "" && c20Dir != "" {
+			_ = os.WriteFile(inputPath(t), t.Doc, 0o644)
+		}
+	}
 }
 
 func fileWrite(s *astisub.Subtitles, path string) (err error, panicked string) {
@@ -405,6 +422,7 @@ func runScenarioReal(sc C20Scenario) ScenarioResult {
 		c20Dir = dir
 		defer func() { c20Dir = ""; os.RemoveAll(dir) }()
 	}
+	storeInputs(sc)
 	for pi, phase := range sc.Phases {
 		var pr PhaseResult
 		pr.Records = make([][]string, len(phase))
@@ -488,6 +506,7 @@ func c20Child(cfg Config, kind string, raw []byte) int {
 			if dir, err := os.MkdirTemp("", "c20-files-"); err == nil {
 				c20Dir = dir
 			}
+			storeInputs(sc)
 			var r ScenarioResult
 			for pi, phase := range sc.Phases {
 				pr := PhaseResult{Records: make([][]string, len(phase)), TraceHash: "sequential"}
@@ -526,6 +545,9 @@ func c20Bin(cfg Config, build string, race bool) string {
 	return filepath.Join(cfg.Bins, name)
 }
 
+// childProcs is the GOMAXPROCS value of the next child (1 unless a caller asks for more).
+var childProcs = 1
+
 func runChildProc(cfg Config, bin string, req c20Req, timeout time.Duration) (c20Resp, string, error) {
 	var resp c20Resp
 	dir, err := os.MkdirTemp(cfg.Scratch, "c20-")
@@ -545,7 +567,7 @@ func runChildProc(cfg Config, bin string, req c20Req, timeout time.Duration) (c2
 	var stdout, stderr bytes.Buffer
 	cmd.Stdout, cmd.Stderr = &stdout, &stderr
 	// one P: only one task is runnable at a time anyway, and per-P caches (sync.Pool) then behave the same in every run
-	cmd.Env = append(os.Environ(), "GORACE=halt_on_error=0 history_size=4", "GOMAXPROCS=1")
+	cmd.Env = append(os.Environ(), "GORACE=halt_on_error=0 history_size=4", fmt.Sprintf("GOMAXPROCS=%d", childProcs))
 	if cfg.Scratch != "" {
 		cmd.Env = append(cmd.Env, "TMPDIR="+cfg.Scratch) // the scenario directories of the file steps live (briefly) in the check's scratch directory
 	}
@@ -713,6 +735,8 @@ func buildDocPool(cfg Config) (*docPool, error) {
 			p.docs = append(p.docs, corpus.Gen(f, root.Derive("c20-"+f, i), i))
 		}
 	}
+	// documents with hundreds of cues (size thresholds inside readers and writers)
+	p.docs = append(p.docs, corpus.LargeTTML(root.Derive("c20-large-ttml", 0), 300), corpus.Large("srt", root.Derive("c20-large-srt", 0), 40000))
 	// TTML documents that differ only in their (unknown) language tag, pairwise sharing the primary subtag
 	for _, tag := range []string{"pt-PT", "pt-BR", "de-AT", "de-CH"} {
 		p.docs = append(p.docs, corpus.Doc{Name: "ttml-lang-" + tag, Format: "ttml", Data: []byte(`<?xml version="1.0" encoding="UTF-8"?>
@@ -766,7 +790,7 @@ func genTask(r *prng.R, pool *docPool, idx int, theme string) TaskProg {
 	if r.Bool(0.35) { // bias towards the teletext charset documents: the shared tables with conflicting patches
 		d = pool.docs[r.Intn(8)]
 	}
-	if theme != "" && theme != "writers" && theme != "files" && theme != "missing" { // themed scenario: every task works on the same format (different documents)
+	if theme != "" && theme != "writers" && theme != "files" && theme != "missing" && theme != "samefile" { // themed scenario: every task works on the same format (different documents)
 		var same []corpus.Doc
 		for _, x := range pool.docs {
 			if x.Format == theme {
@@ -797,7 +821,10 @@ func genTask(r *prng.R, pool *docPool, idx int, theme string) TaskProg {
 	for i := 0; i < nw; i++ {
 		t.Writers = append(t.Writers, api.WriterFormats[r.Intn(len(api.WriterFormats))])
 	}
-	if (r.Bool(0.15) || theme == "files" || theme == "missing") && t.Reader != "ssa-opts" && t.Reader != "ssa-cb" {
+	if theme == "samefile" && (t.Reader == "ssa-opts" || t.Reader == "ssa-cb") {
+		t.Reader = "ssa"
+	}
+	if (r.Bool(0.15) || theme == "files" || theme == "missing" || theme == "samefile") && t.Reader != "ssa-opts" && t.Reader != "ssa-cb" {
 		// through the file helper: the extension selects the reader, so only configurations Open can express
 		t.OpenExt = map[string]string{"srt": "srt", "vtt": "vtt", "ssa": r.Pick("ssa", "ass"), "stl": "stl", "ttml": "ttml", "ts": "ts"}[d.Format]
 	}
@@ -818,7 +845,7 @@ func genScenario(root *prng.R, pool *docPool, j int, lim c20Limits) C20Scenario 
 	sc := C20Scenario{Seed: r.Uint64(), Policy: r.Pick("uniform", "rr", "burst", "starve0"), Mean: float64(r.PickInt(1, 2, 5, 20, 100, 1000))}
 	// swarm: a third of the scenarios are themed (all tasks on one format, so that the same functions and
 	// tables are in use by several tasks at once), some are "writer storms" (all tasks write the same formats)
-	theme := r.Pick("", "", "", "", "ts", "ts", "stl", "vtt", "srt", "ssa", "ttml", "writers", "writers", "files", "missing")
+	theme := r.Pick("", "", "", "", "ts", "ts", "stl", "vtt", "srt", "ssa", "ttml", "writers", "writers", "files", "missing", "samefile")
 	fileExt := r.Pick("srt", "vtt", "ssa", "stl", "ttml")
 	storm := []string{api.WriterFormats[r.Intn(len(api.WriterFormats))], api.WriterFormats[r.Intn(len(api.WriterFormats))]}
 	var all []int
@@ -829,6 +856,10 @@ func genScenario(root *prng.R, pool *docPool, j int, lim c20Limits) C20Scenario 
 		}
 		if theme == "files" { // every task uses the file helpers with the same extension in the same directory
 			t.FileWrites = []string{fileExt, fileExt}
+		}
+		if theme == "samefile" && i > 0 { // every task opens the same file (same options) and then goes its own way
+			t.Doc, t.Reader, t.OpenExt, t.Plan = sc.Tasks[0].Doc, sc.Tasks[0].Reader, sc.Tasks[0].OpenExt, sc.Tasks[0].Plan
+			t.Name = fmt.Sprintf("t%d:same-as-t0", i)
 		}
 		if theme == "missing" { // many failing opens first, then the file helpers for real
 			t.MissingOpens = r.Range(20, 30)
@@ -1057,7 +1088,14 @@ func RunC20(cfg Config) (*ShardResult, error) {
 				end = len(list)
 			}
 			batch := list[b:end]
+			// one P by default (only one task is runnable anyway; per-P caches then behave the same in every run);
+			// every fourth batch gets four, so that code which sizes its own parallelism by GOMAXPROCS is exercised too
+			childProcs = 1
+			if (b/lim.batch)%4 == 3 {
+				childProcs = 4
+			}
 			results, races, err := e.runBatch(build, batch)
+			childProcs = 1
 			if err != nil {
 				res.Inconclusive += int64(len(batch))
 				res.Evaluations += int64(len(batch))
